@@ -238,6 +238,14 @@ type Finding struct {
 	Signature string `json:"signature,omitempty"` // prefix of "<prop>:<class>"
 	Commit    string `json:"commit,omitempty"`
 	What      string `json:"what"`
+	Short     string `json:"short,omitempty"`
+}
+
+func (f Finding) line() string {
+	if f.Short != "" {
+		return f.Short
+	}
+	return f.What
 }
 
 func loadFindings() []Finding {
@@ -470,7 +478,7 @@ func cmdCheck(args []string) int {
 			if br.Name == "B" {
 				for i := range open {
 					f := &open[i]
-					if f.Signature != "" && strings.HasPrefix(sig, f.Signature) {
+					if f.Signature != "" && matchesAny(sig, f.Signature) {
 						// every run showing it must carry the trigger
 						all := true
 						for _, r := range rs {
@@ -483,28 +491,8 @@ func cmdCheck(args []string) int {
 						}
 					}
 				}
-				if kf == nil {
-					// a violation in the batch that allows known triggers which
-					// only ever occurs together with one is a secondary effect
-					withTrig := 0
-					for _, r := range rs {
-						if len(r.Triggers) > 0 {
-							withTrig++
-						}
-					}
-					if withTrig == len(rs) {
-						secondary += len(rs)
-						continue
-					}
-					// keep only trigger-free runs for reporting
-					var clean []*sim.RunResult
-					for _, r := range rs {
-						if len(r.Triggers) == 0 {
-							clean = append(clean, r)
-						}
-					}
-					rs = clean
-				}
+				// anything else found in this batch is a new violation, whether or not a
+				// known trigger was present: only listed signatures are ever suppressed
 			}
 			if kf != nil {
 				if knownSeen[kf.ID] != nil {
@@ -544,9 +532,9 @@ func cmdCheck(args []string) int {
 
 	for _, f := range open {
 		if c := knownSeen[f.ID]; c != nil {
-			fmt.Printf("KNOWN-FINDING: property=%s %s [%s] replay=%s\n", prop, f.What, f.ID, c.Replay)
+			fmt.Printf("KNOWN-FINDING: property=%s %s [%s] replay=%s\n", prop, f.line(), f.ID, c.Replay)
 		} else {
-			fmt.Printf("KNOWN-FINDING: property=%s %s [%s] (listed; not re-observed in this run)\n", prop, f.What, f.ID)
+			fmt.Printf("KNOWN-FINDING: property=%s %s [%s] (listed; not re-observed in this run)\n", prop, f.line(), f.ID)
 		}
 	}
 	for _, c := range confirmedV {
@@ -582,6 +570,16 @@ func cmdCheck(args []string) int {
 	writeEvidence(prop, *tier, seed, b, batches, confirmedV, knownSeen, open, secondary, infra, time.Since(start).Seconds(), buildS)
 	fmt.Printf("%s: %d runs (%d non-trivial), %d violation(s), %d known finding(s) listed, wall %.1fs, exit %d\n", prop, totalRuns, nontriv, len(confirmedV), len(open), time.Since(start).Seconds(), exit)
 	return exit
+}
+
+// matchesAny: a finding lists one or more signature prefixes separated by '|'.
+func matchesAny(sig, list string) bool {
+	for _, p := range strings.Split(list, "|") {
+		if p != "" && strings.HasPrefix(sig, p) {
+			return true
+		}
+	}
+	return false
 }
 
 func mixSeed(s uint64) uint64 { return s*0x9e3779b97f4a7c15 + 0x7f4a7c15 }
